@@ -15,14 +15,15 @@ swapped field), a write that is dropped, added or re-ordered, a re-queue that is
 another proposal, a status field assigned another value: each changes the regenerated function, and
 the theorem below for that function no longer checks.  What the tie does not see: the values moved
 by the `plumbing` assignments (value-path twin and its correspondence), iteration counts of loops,
-iterations of the transaction controller's loops beyond the first (its theorems are for
-transactions that list one proposal; the creation of proposals is covered for a change of one
+the SERIALIZABLE-wait loops and the initialisation loop of the transaction controller beyond the first
+iteration (the four phase loops are tied for any number of proposals, see below; the creation of proposals is covered for a change of one
 target, rollback transactions' creation of proposals by correspondence only).
 -/
 import OnosVerif.Proofs.V2SkelProp
 import OnosVerif.Proofs.V2SkelCfg
 import OnosVerif.Proofs.V2SkelTx
 import OnosVerif.Proofs.V2SkelSource
+import OnosVerif.Proofs.V2SkelLoop
 
 namespace OnosVerif.Props.V2Skel
 open OnosVerif.Generated OnosVerif.V2 OnosVerif.V2.Skel
@@ -221,6 +222,47 @@ theorem V2_skel_tx_initialize_create_rollback (s : Sys) (t : Tx) (tgt : Tgt) (ch
       (initCreatesRollback s t target).flatMap effToksTx ++ [.set "proposals" "append(proposals, proposalID)"] ++
         planTraceTx { effects := [.tx t.index t.version (.setProposals [(tgt, t.index)])] } :=
   skel_tx_initialize_create_rollback s t tgt ch target h hprops hrb htgt htrb hch hw
+
+/-! ### the phase loops over ANY number of proposals (multi-target transactions)
+
+`iterate body after …` runs the regenerated trace of one iteration over the proposal list the way Go's
+`for … range` does (an iteration ending in `.misc "next"` hands over to the next proposal, with the loop
+flag cleared if it assigned `false` to it; any other iteration ends the invocation; after the last
+proposal the statements after the loop run with the flag as the iterations left it).  Up to the
+assignments to the flag itself, that is the twin's plan - for every list of proposals: a proposal whose
+phase is not opened yet is opened and the invocation ends; one failed validation / apply fails the
+transaction whatever the other targets did; the transaction phase completes only when NO proposal is still
+in progress (all-or-nothing, C01). -/
+
+theorem V2_skel_tx_validate_all_proposals (s : Sys) (t : Tx) (ps : List Proposal)
+    (h : t.validate = .opened) (hps : getProps s (t.proposals.getD []) = some ps) :
+    dropFlag "allValidated" (iterate v2sk_tx_validate_loop1_body v2sk_tx_validate_loop1_after
+      (gTxIterOf t) (gTxIterOf t default) "allValidated" ps true) = planTraceTx (txValidate s t) := by
+  rw [loop_tx_validate]; simp [txValidate, h, hps]
+
+theorem V2_skel_tx_commit_all_proposals (s : Sys) (t : Tx) (ps : List Proposal)
+    (h : t.commit = .opened) (hps : getProps s (t.proposals.getD []) = some ps) :
+    dropFlag "allCommitted" (iterate v2sk_tx_commit_loop1_body v2sk_tx_commit_loop1_after
+      (gTxIterOf t) (gTxIterOf t default) "allCommitted" ps true) = planTraceTx (txCommit s t) := by
+  rw [loop_tx_commit]; simp [txCommit, h, hps]
+
+theorem V2_skel_tx_apply_all_proposals (s : Sys) (t : Tx) (ps : List Proposal)
+    (h : t.apply = .opened) (hps : getProps s (t.proposals.getD []) = some ps) :
+    dropFlag "allApplied" (iterate v2sk_tx_apply_loop1_body v2sk_tx_apply_loop1_after
+      (gTxIterOf t) (gTxIterOf t default) "allApplied" ps true) = planTraceTx (txApply s t) := by
+  rw [loop_tx_apply]; simp [txApply, h, hps]
+
+theorem V2_skel_tx_abort_all_proposals (s : Sys) (t : Tx) (ps : List Proposal)
+    (h : t.abort = .opened) (hps : getProps s (t.proposals.getD []) = some ps) :
+    dropFlag "allAborted" (iterate v2sk_tx_abort_loop1_body v2sk_tx_abort_loop1_after
+      (gTxIterOf t) (gTxIterOf t default) "allAborted" ps true) = planTraceTx (txAbort s t) := by
+  rw [loop_tx_abort]; simp [txAbort, h, hps]
+
+/-- non-vacuity: two targets, the second still validating - nothing is written, the transaction waits -/
+example : txValidateLoop { index := 3 } [{ target := 1, index := 3, validate := .done }, { target := 2, index := 3, validate := .opened }] true = .nop := rfl
+/-- … and a failed validation of the second target fails the transaction although the first is validated -/
+example : (txValidateLoop { index := 3 } [{ target := 1, index := 3, validate := .done }, { target := 2, index := 3, validate := .failed, vFailure := some .invalid }] true).effects =
+    [.tx 3 (default : Tx).version (.validateFailed (some .invalid))] := by decide
 
 /-- a listed proposal that is not found ends the invocation without a write (every loop) -/
 theorem V2_skel_tx_missing (t : Tx) (p : Proposal) (q : Tx) (b : Bool) :
